@@ -37,6 +37,8 @@ type Gates struct {
 	seq    int
 	off    bool
 	Passed map[string]int // how many times each site was passed (parked or not)
+	// Filter, if set, decides whether a goroutine reaching a listed site parks (who as in Parked.Who)
+	Filter func(site, who string) bool
 }
 
 // NewGates installs a gate handler that parks goroutines at the given sites.
@@ -86,6 +88,10 @@ func (g *Gates) handle(site string, key any) {
 			defer func() { recover() }() // unhashable key
 			who = g.knames[key]
 		}()
+	}
+	if g.Filter != nil && !g.Filter(site, who) {
+		g.mu.Unlock()
+		return
 	}
 	g.seq++
 	p := &Parked{Site: site, Key: key, Who: who, seq: g.seq, ch: make(chan struct{})}
